@@ -24,7 +24,7 @@ RULE = (
     "(xpath text, tree fingerprint)"
 )
 ASSUMPTIONS = ["reference evaluator encodes the documented semantics (virtual super-root; the root satisfies no field/index constraint)"]
-MUST_SEE = ["deep_3000_xpath_queries", "equal_twin_trees_matched_in_turn", "refused_text_before_compilation", "index_ge_257_match", "second_tree_sharing_nodes", "late_defined_class", "index_ge_10_match", "first_step_field", "root_matches", "two_anywhere", "nonempty", "relative_spelling", "index_only_step"]
+MUST_SEE = ["virtual_subclass_steps", "deep_3000_xpath_queries", "equal_twin_trees_matched_in_turn", "refused_text_before_compilation", "index_ge_257_match", "second_tree_sharing_nodes", "late_defined_class", "index_ge_10_match", "first_step_field", "root_matches", "two_anywhere", "nonempty", "relative_spelling", "index_only_step"]
 CONFIG = {
     "quick": {"shards": 16, "trees": 50, "xpaths": 70, "watchdog_s": 300},
     "thorough": {"shards": 32, "trees": 300, "xpaths": 120, "watchdog_s": 3000},
@@ -242,6 +242,29 @@ def run_shard(ctx):
 
     if ctx.only_case is None and ctx.shard % 4 == 1:
         deep_leg(ctx, U, ASTXpath)
+
+    # ---- a step naming an abstract base selects instances of its virtual subclasses too (isinstance is the test) ----
+    from abc import ABC
+
+    vname = f"{P}Scope7"
+    if vname not in U.module.__dict__:
+        exec(compile(f"class {vname}({P}Expr, ABC):\n    pass\n", "<c07 abc>", "exec", dont_inherit=True), U.module.__dict__)
+        U.module.__dict__[vname].register(U.cls[f"{P}Un"])
+    un = U.cls[f"{P}Un"](child=U.cls[f"{P}Leaf"](v=71))
+    vroot = U.cls[f"{P}List"](items=(un, U.cls[f"{P}Leaf"](v=72)))
+    for text, exp in ((f"//{vname}", [un]), (f"/{P}List/@items[0]{vname}", [un]), (f"//{vname}/@child {P}Leaf", [un.child]), (f"/{P}List/{vname}/{P}Leaf", [un.child])):
+        ctx.evaluations += 1
+        ctx.count("virtual_subclass_steps")
+        try:
+            xp = ASTXpath(text)
+            got = list(xp.findall(vroot))
+            m = [n for n in (vroot, un, un.child, vroot.items[1]) if xp.match(vroot, n)]
+        except Exception as e:  # noqa: BLE001
+            ctx.violation("virtual-subclass", f"xpath naming an abstract base with a registered virtual subclass: {type(e).__name__}: {e}", {"xpath": text})
+            continue
+        if [id(x) for x in got] != [id(x) for x in exp] or [id(x) for x in m] != [id(x) for x in exp]:
+            ctx.violation("virtual-subclass", "a step naming an abstract base class does not select / match an instance of its registered virtual subclass", {"xpath": text, "found": len(got), "matched": len(m)})
+    vroot.detach()
 
     # ---- a class defined after an xpath naming it was first looked at ----
     name = f"{P}Late7"
